@@ -78,7 +78,7 @@ def pyval(v, objs):
 class Builder:
     def __init__(self, case, objs):
         self.case, self.objs = case, objs
-        self.vars, self.flats = {}, {}
+        self.vars, self.flats, self.concats = {}, {}, {}
         for k, d in case['doms']:
             self.vars[k] = let(P, domain=[objs[i] for i in d], name=f'v{k}')
 
@@ -100,6 +100,10 @@ class Builder:
             if t[1] not in self.flats:
                 self.flats[t[1]] = flatten(self.term(t[2]))
             return self.flats[t[1]]
+        if k == 'concat':
+            if t[1] not in self.concats:
+                self.concats[t[1]] = concatenate(self.term(t[2]))
+            return self.concats[t[1]]
         raise ValueError(t)
 
     def cond(self, c):
@@ -150,15 +154,19 @@ class Builder:
                 conds = [self.cond(c[1]), self.cond(c[2])]
             else:
                 conds = [self.cond(c)]
+        quant = the if case.get('quant') == 'the' else an
         if case.get('form') == 'entity':
-            return an(entity(sel[0], *conds)), sel
-        return an(set_of(sel, *conds)), sel
+            return quant(entity(sel[0], *conds)), sel
+        return quant(set_of(sel, *conds)), sel
 
 
-def rows_of(q, sel, form, objs):
+def rows_of(q, sel, form, objs, quant=None):
     index_of = lambda o: o.idx
     out = []
-    for r in q.evaluate():
+    res = q.evaluate()
+    if quant == 'the':
+        res = [res]
+    for r in res:
         if form == 'entity':
             out.append(show_val(r, index_of))
         else:
@@ -180,6 +188,8 @@ def guarded(f):
 
 
 def run(case):
+    if 'variant' in case:
+        return dict(orig=run(case['orig']), variant=run(case['variant']))
     res = {}
     for cfg in ('off', 'on'):
         (disable_caching if cfg == 'off' else enable_caching)()
@@ -194,8 +204,8 @@ def run(case):
             res[cfg] = res[cfg + '2'] = 'X build:' + type(e).__name__
             continue
         TRACE['mixed'], TRACE['retrievals'] = False, 0
-        res[cfg] = guarded(lambda: rows_of(q, sel, case.get('form'), objs))
-        res[cfg + '2'] = guarded(lambda: rows_of(q, sel, case.get('form'), objs))
+        res[cfg] = guarded(lambda: rows_of(q, sel, case.get('form'), objs, case.get('quant')))
+        res[cfg + '2'] = guarded(lambda: rows_of(q, sel, case.get('form'), objs, case.get('quant')))
         if cfg == 'on':
             res['mixed_level_retrieval'] = TRACE['mixed']
             res['cache_retrievals'] = TRACE['retrievals']
